@@ -127,7 +127,7 @@ class ModeRoundTrip(Harness):
         inv, fake = models.make(M, cfg, crc=crc)
         info = range(0x88b8, 0x88b8 + 0x21)
         fake.regs = {a: v for a, v in fake.regs.items() if a in info}
-        fake.default = default
+        fake.default = lambda a: 2 if a == 47000 else default(a)     # work mode before the call: BACKUP (concrete)
         if cfg["family"] == "ES":
             fake.es_settings = [0] * 86
         regs = eco_regs(inv)
@@ -137,6 +137,12 @@ class ModeRoundTrip(Harness):
             return ("not offered", None, None, None, None)
         before = {n: [fake.get(a) for a in range(r[0], r[0] + r[1])] for n, r in regs.items()}
         self.assume_valid_prior(M, inv, before[1])
+        if self.mode not in (98, 99) or cfg["family"] == "ES":
+            # a getter before the setter (whatever it caches must not survive the setter)
+            try:
+                drive(inv.get_operation_mode())
+            except (ValueError, M.exceptions.InverterError):
+                pass
         fake.log.clear()
         try:
             drive(inv.set_operation_mode(m, p, soc))
@@ -159,7 +165,13 @@ class ModeRoundTrip(Harness):
         for r in regs1:
             b += [to_z3(r) / 256, to_z3(r) % 256]
         kind, valid, fields = S.reference(S.cls_name(g), g, b)
-        cur().assume(valid)
+        if self.mode in (98, 99):
+            # the group is overwritten by the setter: any previous content counts, also an undecodable one (time
+            # fields stay valid so that the path count stays small)
+            cur().assume(z3.And(fields["start_h"] >= 0, fields["start_h"] <= 23, fields["start_m"] >= 0, fields["start_m"] <= 59,
+                                fields["end_h"] >= 0, fields["end_h"] <= 23, fields["end_m"] >= 0, fields["end_m"] <= 59))
+        else:
+            cur().assume(valid)
         if self.tier == "quick":
             # quick: the time window of the prior group is fixed (00:00-23:59); type, power, SoC, days, months symbolic
             cur().assume(z3.And(fields["start_h"] == 0, fields["start_m"] == 0, fields["end_h"] == 23, fields["end_m"] == 59))
@@ -250,12 +262,19 @@ class ScalarRoundTrip(Harness):
             # setter writes (prior content of the written bytes is overwritten completely)
             fake.es_settings = [(i * 29 + 3) % 200 for i in range(86)]
         lo, hi = self.domain(M, inv)
-        x = mkx(lo, hi)
-        if self.what == "dod":
-            drive(inv.set_ongrid_battery_dod(x))
-            return x, drive(inv.get_ongrid_battery_dod())
-        drive(inv.set_grid_export_limit(x))
-        return x, drive(inv.get_grid_export_limit())
+        # getter first, then two set/get rounds on the same object (state kept between calls must not show)
+        getter = inv.get_ongrid_battery_dod if self.what == "dod" else inv.get_grid_export_limit
+        setter = inv.set_ongrid_battery_dod if self.what == "dod" else inv.set_grid_export_limit
+        try:
+            drive(getter())
+        except (ValueError, M.exceptions.InverterError):
+            pass
+        out = []
+        for rnd in ("", "_2"):
+            x = mkx(lo, hi, rnd)
+            drive(setter(x))
+            out.append((x, drive(getter())))
+        return out
 
     def symbolic(self, ex):
         G = shimmed()
@@ -264,12 +283,13 @@ class ScalarRoundTrip(Harness):
         def default(a):
             return sym_int(f"r{a}" if not isinstance(a, tuple) else f"s{a[1]}", 0, 0xFFFF if not isinstance(a, tuple) else 0xFF)
         try:
-            x, got = self._run(G, default, const_crc, lambda lo, hi: sym_int("x", lo, hi))
+            rounds = self._run(G, default, const_crc, lambda lo, hi, sfx: sym_int("x" + sfx, lo, hi))
         except Exception as e:  # noqa: BLE001
             ex.fail("setter/getter raised for a valid value", f"{type(e).__name__}: {e}")
-        if got is None:
-            ex.fail("getter returned None after a successful set")
-        ex.check(to_z3(got) == x.e, "getter does not return the value that was set")
+        for x, got in rounds:
+            if got is None:
+                ex.fail("getter returned None after a successful set")
+            ex.check(to_z3(got) == x.e, "getter does not return the value that was set")
         return "roundtrip"
 
     def concrete(self, inputs):
@@ -279,11 +299,12 @@ class ScalarRoundTrip(Harness):
         def default(a):
             return inputs.get(f"r{a}" if not isinstance(a, tuple) else f"s{a[1]}", 0)
         try:
-            x, got = self._run(R, default, None, lambda lo, hi: inputs.get("x", lo))
+            rounds = self._run(R, default, None, lambda lo, hi, sfx: inputs.get("x" + sfx, lo))
         except Exception as e:  # noqa: BLE001
             return {"outcome": "raised", "violation": f"{tag}: setter/getter raised {type(e).__name__}", "observed": f"{type(e).__name__}: {e}"}
-        return {"outcome": "roundtrip", "violation": None if got == x else f"{tag}: getter does not return the value that was set",
-                "observed": f"set={x} got={got!r}"}
+        bad = [(x, got) for x, got in rounds if got != x]
+        return {"outcome": "roundtrip", "violation": None if not bad else f"{tag}: getter does not return the value that was set",
+                "observed": f"rounds={rounds}"}
 
 
 SCALAR_CFGS = E2E_CFGS[:1] + E2E_CFGS[4:5] + [
